@@ -276,7 +276,7 @@ class C10(Check):
         st.setmax("max_addresses", N)
 
     def replay(self, case):
-        if case.get("kind") == "client":
+        if case.get("kind") in ("client", "client2"):
             from checks import c10_client
             return c10_client.replay(case)
         fams, modes, ct = tuple(case["fams"]), tuple(case["modes"]), case["ct"]
